@@ -12,14 +12,20 @@ func TestCheck(t *testing.T) {
 		crashChild(scn)
 		return
 	}
+	if seq := os.Getenv("VERIF_C18_PROC"); seq != "" {
+		procChild(seq)
+		return
+	}
 	r := runner.Start("C18", "model_checking")
 	schedPart(r, t)
 	mgmtSchedPart(r, t)
 	if _, child := runner.IsShard(); !child && runner.ReplayPath() == "" {
 		crashPart(r)
 		failurePart(r)
+		processPart(r)
 	}
 	r.Assume("scheduling points are the lock operations of the runtime state, the queue store and the per-surface servers; code between them is thread-local (side condition: -race pass)")
-	r.Set("rule", "(a) 29 reload inputs (unreadable file, parse error, compile errors, unset secret env, every restart-requiring difference each with a reloadable change riding along, and 6 reloadable changes) are applied to a running instance; a probe vector of 61 ingress/pull/admin requests must be answered exactly as by a twin that never reloaded (failed reload) or by a fresh instance started on the new file (successful reload); (b) every interleaving of the real reloadConfig (old -> new) with one in-flight request per config pair, on the handlers wired by the real startServers; oracle: the request's observable result equals the result under the old configuration only or under the new configuration only (both obtained by sequential reference runs of the same build); (c) the config file is rewritten through the management API (endpoint upsert / delete) and through MCP config_apply (write_only, and write_and_reload with a reload that cannot succeed) in a child process that is SIGKILLed before every statement of writeFileAtomic / syncDir / rollbackConfigFile (app and mcp, instrumented at build time): the file must hold exactly the old or exactly the new bytes and the new bytes must compile; a failed reload must restore the previous bytes")
+	r.Assume("process part: the real app.Main in a child process (in-memory listeners of the build overlay), one SIGHUP per edit, outcome read from the reload's own log line")
+	r.Set("rule", "(p) the real entry point app.Main(hookaido run) in a child process, every sequence up to depth 2 (thorough 3) over {reloadable edit, restart-requiring edit, invalid file, no edit, valid-again edit} each followed by SIGHUP: log line and probe vector must equal the reference (a refused edit stays refused when signalled again); (a) 29 reload inputs (unreadable file, parse error, compile errors, unset secret env, every restart-requiring difference each with a reloadable change riding along, and 6 reloadable changes) are applied to a running instance; a probe vector of 61 ingress/pull/admin requests must be answered exactly as by a twin that never reloaded (failed reload) or by a fresh instance started on the new file (successful reload); (b) every interleaving of the real reloadConfig (old -> new) with one in-flight request per config pair, on the handlers wired by the real startServers; oracle: the request's observable result equals the result under the old configuration only or under the new configuration only (both obtained by sequential reference runs of the same build); (c) the config file is rewritten through the management API (endpoint upsert / delete) and through MCP config_apply (write_only, and write_and_reload with a reload that cannot succeed) in a child process that is SIGKILLed before every statement of writeFileAtomic / syncDir / rollbackConfigFile (app and mcp, instrumented at build time): the file must hold exactly the old or exactly the new bytes and the new bytes must compile; a failed reload must restore the previous bytes")
 	r.Finish()
 }
